@@ -1,0 +1,35 @@
+// Copyright (c) The Thanos Community Authors.
+// Licensed under the Apache License 2.0.
+
+//go:build verif
+
+package execution
+
+import (
+	"github.com/prometheus/prometheus/promql/parser"
+
+	"github.com/thanos-community/promql-engine/execution/model"
+	"github.com/thanos-community/promql-engine/query"
+)
+
+const verifWrapEnabled = true
+
+// VerifWrapOperator, when set by a simulator, is interposed at every operator
+// edge of every physical plan. It must delegate Explain and GetPool.
+var VerifWrapOperator func(op model.VectorOperator, expr string, opts *query.Options) model.VectorOperator
+
+// verifMarked marks an expression whose operator is being built on behalf of
+// the wrapping call one frame up, so that it is wrapped exactly once.
+type verifMarked struct{ parser.Expr }
+
+func verifWrap(op model.VectorOperator, expr parser.Expr, opts *query.Options) model.VectorOperator {
+	f := VerifWrapOperator
+	if f == nil || op == nil {
+		return op
+	}
+	s := "<shard>"
+	if expr != nil {
+		s = expr.String()
+	}
+	return f(op, s, opts)
+}
